@@ -282,12 +282,23 @@ Definition rec_of (n : nat) (k : nat) : list Z :=
 Lemma rec_of_len n k : length (rec_of n k) = n.
 Proof. unfold rec_of. rewrite map_length, seq_length. reflexivity. Qed.
 
+(* a second family of records: as-of instant (cells 0, 1) and bound (cell 4) are the same in every
+   publication, the other cells carry the number of the call (what the daemon publishes while chronyd is
+   silent: the measurement stands, status and void-after move) *)
+Definition rec_of_c (n : nat) (k : nat) : list Z :=
+  map (fun i => if Nat.eqb i 0 then 7 else if Nat.eqb i 1 then 8 else if Nat.eqb i 4 then 9
+                else if Nat.eqb i 6 then Z.of_nat k mod 3 else 1000 * Z.of_nat k + Z.of_nat i) (seq 0 n).
+
+Lemma rec_of_c_len n k : length (rec_of_c n k) = n.
+Proof. unfold rec_of_c. rewrite map_length, seq_length. reflexivity. Qed.
+
 (* What the daemon publishes.  The protocol never looks at the content of a record, so the machine
    and every theorem about it are stated for an arbitrary function from the number of the write()
    call to the record it publishes; [rec_of] (pairwise different records, used by the
    correspondence with the real code and by the statements about publication order) is one instance. *)
 Class RecFun := { recf : nat -> nat -> list Z; recf_len : forall n k, length (recf n k) = n }.
 Definition std_rec : RecFun := {| recf := rec_of; recf_len := rec_of_len |}.
+Definition const_rec : RecFun := {| recf := rec_of_c; recf_len := rec_of_c_len |}.
 
 Inductive obs :=
 | OAccess (who : nat) (it : titem)          (* who: 0 = writer, S j = reader j *)
@@ -361,6 +372,8 @@ Definition m_init (c : cfg) : mstate := mkm (w_init c) [] 0 c.
 
 (* the instance that is extracted and run against the real code *)
 Definition m_run_std := @m_run std_rec.
+(* ... and the same machine publishing the second family (harness operation shmc) *)
+Definition m_run_const := @m_run const_rec.
 
 (* final memory as a third party sees it: version, generation, cells *)
 Definition mem_of (c : cfg) (L : list event) : list Z :=
